@@ -614,6 +614,11 @@ def rule_shared_state(chk, prog, rule='C01.7-cached-arrays-never-updated-in-plac
         state_attrs.add(mname)
     if c.is_dataclass() and not c.is_struct():
       state_attrs.update(f_[0] for f_ in c.fields)
+  # functions whose result object is shared between callers (memoised)
+  memoised = set()
+  for fi in prog.funcs.values():
+    if any('lru_cache' in d or d.endswith('functools.cache') or d == 'cache' for d in fi.decorator_names()):
+      memoised.add(fi.name)
   for short in NUMERIC_MODULES:
     name = f'dinosaur.{short}'
     if name not in prog.modules:
@@ -621,7 +626,7 @@ def rule_shared_state(chk, prog, rule='C01.7-cached-arrays-never-updated-in-plac
     m = prog.modules[name]
     tree = ast.parse(open(m.path, encoding='utf-8').read())
     consts = {t.id for st in tree.body if isinstance(st, ast.Assign) for t in st.targets if isinstance(t, ast.Name)}
-    hits = alias.inplace_updates(tree, consts, state_attrs)
+    hits = alias.inplace_updates(tree, consts, state_attrs, memoised)
     for fn, line, text, shared in hits:
       chk.violation(rule, f'{short}.{fn}: {text}', f'in-place update of an object that may alias shared state ({shared}): cached_property values, dataclass fields and module constants '
                     'are reused by every later call (e.g. quadrature weights scaled twice on the second call)', (m.relpath, line), 'update a copy (w = w * c)', text)
